@@ -159,6 +159,17 @@ def package_types(text):
         raise TranslateError("serde rename_all=%r not understood" % rename)
     if set(names) != set(variants):
         raise TranslateError("name() arms %s do not cover the variants %s" % (sorted(names), variants))
+    # the lookup itself: `from_str` must BE the table lookup.  Which strings it accepts is an infinite question that no
+    # correspondence run can settle (a hash comparison with rare collisions would pass every test), so its body is pinned.
+    fm = re.search(r"impl\s+FromStr\s+for\s+PackageType\s*\{.*?fn\s+from_str\s*\(\s*s\s*:\s*&str\s*\)\s*->\s*Result<Self,\s*Self::Err>\s*\{(.*?)\}\s*\}", text, re.S)
+    if not fm:
+        raise TranslateError("PackageType::from_str not found")
+    body = re.sub(r"\s+", "", fm.group(1))
+    if body != "PACKAGE_TYPES.get(&UniCase::new(s)).copied().ok_or(UnsupportedPackageType)":
+        raise TranslateError("PackageType::from_str is no longer the table lookup: %s" % body[:200])
+    tm = re.search(r"static\s+PACKAGE_TYPES\s*:\s*phf::Map\s*<\s*UniCase\s*<\s*&'static\s+str\s*>\s*,\s*PackageType\s*>", text)
+    if not tm:
+        raise TranslateError("PACKAGE_TYPES is not a phf::Map<UniCase<&'static str>, PackageType> any more")
     return variants, phf, names, rename
 
 
